@@ -242,7 +242,8 @@ func runC19(c *Ctx) {
 			c.Unresolved("C19.scalar-exact", "value.FromScalar")
 		} else {
 			n := 0
-			for _, f := range withAnon(from) {
+			unit := scalarUnit(from)
+			for _, f := range unit {
 				instrs(f, func(in ssa.Instruction) {
 					st, ok := in.(*ssa.Store)
 					if !ok {
@@ -260,39 +261,59 @@ func runC19(c *Ctx) {
 					if !ok || b.Info()&(types.IsNumeric|types.IsBoolean|types.IsString) == 0 {
 						return
 					}
-					n++
-					v := st.Val
-					why := ""
-					for i := 0; i < 8; i++ {
+					// a constructor helper (intVal(v) ...): the stored value is its parameter - judged at every call site
+					vals := []ssa.Value{st.Val}
+					if pp, isP := unwrap(st.Val).(*ssa.Parameter); isP && f != from && f.Parent() == nil {
+						vals = nil
+						idx := -1
+						for i, q := range f.Params {
+							if q == pp {
+								idx = i
+							}
+						}
+						for _, h := range unit {
+							for _, ci := range callsIn(h) {
+								if staticCallee(ci.Common()) == f && idx >= 0 && idx < len(ci.Common().Args) {
+									vals = append(vals, ci.Common().Args[idx])
+								}
+							}
+						}
+					}
+					for _, sv := range vals {
+						n++
+						v := sv
+						why := ""
+						for i := 0; i < 8; i++ {
+							switch x := v.(type) {
+							case *ssa.Convert:
+								v = x.X
+								continue
+							case *ssa.ChangeType:
+								v = x.X
+								continue
+							}
+							break
+						}
+						okSrc := false
 						switch x := v.(type) {
-						case *ssa.Convert:
-							v = x.X
-							continue
-						case *ssa.ChangeType:
-							v = x.X
-							continue
+						case *ssa.Extract:
+							_, okSrc = x.Tuple.(*ssa.TypeAssert)
+						case *ssa.TypeAssert:
+							okSrc = true
+						case *ssa.Parameter:
+							okSrc = true
+						case *ssa.UnOp, *ssa.Index, *ssa.Phi, *ssa.Next:
+							// an element of the input (the string of a []string)
+							okSrc = true
+							if u, isU := x.(*ssa.UnOp); isU && u.Op != token.MUL {
+								okSrc = false
+							}
 						}
-						break
-					}
-					okSrc := false
-					switch x := v.(type) {
-					case *ssa.Extract:
-						_, okSrc = x.Tuple.(*ssa.TypeAssert)
-					case *ssa.TypeAssert:
-						okSrc = true
-					case *ssa.Parameter:
-						okSrc = true
-					case *ssa.UnOp, *ssa.Index, *ssa.Phi, *ssa.Next:
-						// an element of the input (the string of a []string)
-						okSrc = true
-						if u, isU := x.(*ssa.UnOp); isU && u.Op != token.MUL {
-							okSrc = false
+						if !okSrc {
+							why = fmt.Sprintf("the stored value is computed by %T: %s", v, Expr(v))
 						}
+						c.Check(okSrc, "C19.scalar-exact", fnName(from), "value stored into "+nt.Obj().Name()+" ("+b.Name()+")", P.Pos(st.Pos()), why)
 					}
-					if !okSrc {
-						why = fmt.Sprintf("the stored value is computed by %T: %s", v, Expr(v))
-					}
-					c.Check(okSrc, "C19.scalar-exact", fnName(from), "value stored into "+nt.Obj().Name()+" ("+b.Name()+")", P.Pos(st.Pos()), why)
 				})
 			}
 			c.Floor("C19.scalar-exact/stores", n, 10)
@@ -558,16 +579,18 @@ func runC19(c *Ctx) {
 			c.Analysed(fnName(from))
 			c.Analysed(fnName(to))
 			built := map[string]bool{}
-			instrs(from, func(in ssa.Instruction) {
-				if st, ok := in.(*ssa.Store); ok {
-					if fa, ok := st.Addr.(*ssa.FieldAddr); ok && fieldName(fa.X.Type(), fa.Field) == "Value" {
-						t := types.TypeString(deref(unwrap(st.Val).Type()), shortQ)
-						if strings.Contains(t, "TypedValue_") {
-							built[t] = true
+			for _, uf := range scalarUnit(from) {
+				instrs(uf, func(in ssa.Instruction) {
+					if st, ok := in.(*ssa.Store); ok {
+						if fa, ok := st.Addr.(*ssa.FieldAddr); ok && fieldName(fa.X.Type(), fa.Field) == "Value" {
+							t := types.TypeString(deref(unwrap(st.Val).Type()), shortQ)
+							if strings.Contains(t, "TypedValue_") {
+								built[t] = true
+							}
 						}
 					}
-				}
-			})
+				})
+			}
 			conv := map[string]*ssa.TypeAssert{}
 			instrs(to, func(in ssa.Instruction) {
 				if ta, ok := in.(*ssa.TypeAssert); ok && ta.CommaOk {
@@ -872,4 +895,23 @@ func pkgPathOfType(n *types.Named) string {
 		return ""
 	}
 	return n.Obj().Pkg().Path()
+}
+
+// scalarUnit: FromScalar, its function literals, and the unexported constructor helpers of the package it calls.
+func scalarUnit(from *ssa.Function) []*ssa.Function {
+	unit := append([]*ssa.Function{}, withAnon(from)...)
+	seen := map[*ssa.Function]bool{}
+	for _, f := range unit {
+		seen[f] = true
+	}
+	for i := 0; i < len(unit); i++ {
+		for _, ci := range callsIn(unit[i]) {
+			cal := staticCallee(ci.Common())
+			if cal != nil && cal.Pkg == from.Pkg && len(cal.Blocks) > 0 && !seen[cal] && !isExportedFn(cal) {
+				seen[cal] = true
+				unit = append(unit, cal)
+			}
+		}
+	}
+	return unit
 }
